@@ -39,6 +39,7 @@ type Stats struct {
 	Paths        int
 	Calls        int
 	MaxDepthSeen int
+	ModelHits    int
 	Functions    map[string]int
 }
 
@@ -64,6 +65,7 @@ type Engine struct {
 	funcObjs   map[*ssa.Function]int
 	lockHook   func(st *State, kind string, p *PtrV)
 	deadline   time.Time
+	uniqueTab  []uniqueEnt
 }
 
 type abortErr struct {
@@ -439,9 +441,14 @@ func (e *Engine) ensureInit(pkg *ssa.Package) {
 	e.stack = nil
 	savedCfg := e.cfg
 	e.cfg.LoopBound = 1 << 30
-	outs := e.execFunction(init, nil, nil, st)
-	e.cfg = savedCfg
-	e.stack = savedStack
+	var outs []Outcome
+	func() {
+		defer func() {
+			e.cfg = savedCfg
+			e.stack = savedStack
+		}()
+		outs = e.execFunction(init, nil, nil, st)
+	}()
 	if len(outs) != 1 || outs[0].panicked {
 		msg := ""
 		if len(outs) > 0 && outs[0].panicked {
